@@ -5,6 +5,7 @@ import BytomModel.Drv.Util
      mem <op> | ldb <op>                     → result of <op> on the MemDB model / the abstract store
    <op>:  get K | has K | set K V | setsync K V | del K | batch s,K,V d,K … | ip P | ws P S f|r
           | setmut K V | setmutk K V | getmut K | batchmut K V
+          | bnew H | bset H K V | bdel H K | bwrite H      (batch handles; a handle may be written repeatedly)
    K,P: hex or `-` (empty);  V,S: `nil`, `-` or hex. -/
 namespace BytomModel.Drv.C20
 open BytomModel.Drv BytomModel.KV
@@ -72,7 +73,23 @@ def showHas : Option Bytes → String
   | none => "absent"
   | some _ => "present"
 
-def step (st : Mem × Spec) (line : String) : (Mem × Spec) × String :=
+def parseHOp : List String → Option HOp
+  | ["bnew", h] => h.toNat?.map .bnew
+  | ["bset", h, k, v] => do
+    let h ← h.toNat?
+    let k ← parseHex k
+    let v ← parseVal v
+    pure (.bset h k v)
+  | ["bdel", h, k] => do
+    let h ← h.toNat?
+    let k ← parseHex k
+    pure (.bdel h k)
+  | ["bwrite", h] => h.toNat?.map .bwrite
+  | _ => none
+
+abbrev St := (Mem × Handles) × (Spec × Handles)
+
+def stepPlain (st : Mem × Spec) (line : String) : (Mem × Spec) × String :=
   match words line with
   | ["reset"] => (([], []), "ok")
   -- existence-style read `db.Get(k) != nil`
@@ -104,5 +121,19 @@ def step (st : Mem × Spec) (line : String) : (Mem × Spec) × String :=
     | none => (st, "bad-op")
   | _ => (st, "bad-op")
 
-def run (_args : List String) : IO Unit := lineLoop (([], []) : Mem × Spec) step
+/-- batch-handle lines first, everything else through the plain step on the two stores -/
+def step (st : St) (line : String) : St × String :=
+  match words line with
+  | ["reset"] => ((([], []), ([], [])), "ok")
+  | "mem" :: rest =>
+    match parseHOp rest with
+    | some op => let r := Mem.stepH st.1 op; ((r.1, st.2), showOut r.2)
+    | none => let r := stepPlain (st.1.1, st.2.1) line; (((r.1.1, st.1.2), (r.1.2, st.2.2)), r.2)
+  | "ldb" :: rest =>
+    match parseHOp rest with
+    | some op => let r := Spec.stepH st.2 op; ((st.1, r.1), showOut r.2)
+    | none => let r := stepPlain (st.1.1, st.2.1) line; (((r.1.1, st.1.2), (r.1.2, st.2.2)), r.2)
+  | _ => (st, "bad-op")
+
+def run (_args : List String) : IO Unit := lineLoop (((([], []), ([], [])) : St)) step
 end BytomModel.Drv.C20
